@@ -28,6 +28,10 @@ def run(ctx, spec):
             ires = "PANIC"
         if "DIVERGE" in (ires, mres):
             continue
+        if ires == "PANIC" and mres == "PANIC":
+            # both sides crash (e.g. divide by zero in a transform): C09's business, not a splice/mode difference
+            modes["both-panic"] = modes.get("both-panic", 0) + 1
+            continue
         modes[mode] = modes.get(mode, 0) + 1
         ok = (S.project(ires, b"", S.ALL_FIELDS) == S.project(mres, b"", S.ALL_FIELDS)) and fi.get("FS") == fm.get("FS")
         if ok:
